@@ -727,6 +727,12 @@ class Engine:
         if fr.fn is not self.current_fn and key not in cur.loops:
             return None
         sp = cur.loops.get(key)
+        if sp is None:
+            # long headers are abbreviated by src(): a declared key that continues the abbreviated text is the same loop
+            for k in cur.loops:
+                if len(key) >= 100 and k.startswith(key):
+                    key, sp = k, cur.loops[k]
+                    break
         if sp is None and fr.fn is self.current_fn:
             # the loop header was edited: a declared loop with the same target (`for x in ...`) / the only declared
             # `while` keeps its invariant, so that the changed loop is still checked against it
@@ -1117,8 +1123,23 @@ class Engine:
         try:
             mi, clsnode, fn = self.repo.function_node(c.target)
         except KeyError as e:
-            rep.error = f"contract out of date: {e}"
-            return rep
+            # the method may have moved to a base class (a refactoring into a common base): inherited methods count
+            found = None
+            try:
+                modname, qual = c.target.split(":")
+                if "." in qual and "method not found" in str(e):
+                    cname, mname = qual.split(".", 1)
+                    ci = self.class_info(f"{modname}:{cname}")
+                    owner = ci._owner(mname) if ci is not None else None  # pylint: disable=protected-access
+                    if owner is not None:
+                        found = self.repo.function_node(f"{getattr(owner.module, 'name', owner.module)}:{owner.name}.{mname}")
+            except Exception:  # pylint: disable=broad-except
+                found = None
+            if found is None:
+                rep.error = f"contract out of date: {e}"
+                return rep
+            mi, clsnode, fn = found
+            rep.trusted.add(f"{c.target} is inherited from {mi.name}:{clsnode.name}")
         self.current_fn = fn
         rep.source_hash = node_hash(mi, fn)
         worklist = [[]]
@@ -1160,7 +1181,12 @@ class Engine:
                       f"solver={ctx.solver_time:.2f}s labels={[l[:40] + ('' if t else ' (no)') for l, t in ctx.path_labels][-4:]}", flush=True)
         declared = set(c.loops)
         if rep.error is None and declared - rep.loops_used:
-            rep.error = f"contract out of date: loop(s) not found in source: {sorted(declared - rep.loops_used)}"
+            if rep.obligations and all(ob.status == "valid" for ob in rep.obligations) and rep.live_exits > 0:
+                # the loop the invariant was written for is gone (rewritten as a comprehension, say) and everything was
+                # proved without it: the declaration is merely unused
+                rep.trusted.add(f"unused loop invariant(s) (loop not in the source any more): {sorted(declared - rep.loops_used)}")
+            else:
+                rep.error = f"contract out of date: loop(s) not found in source: {sorted(declared - rep.loops_used)}"
         rep.wall = time.time() - t_start
         self.current = None
         return rep
